@@ -6,6 +6,8 @@ from . import io_rules
 def run(cx):
     T.to_rfi_all(cx, want=('SIB', 'FORMULA', 'NULLDEFAULT', 'WRITESET', 'PAIR'))
     io_rules.amplification_type_parsing(cx)
+    from . import c17
+    c17.recorded_settings(cx)
     cx.decided += [
         'the log law has the normal form a1*10**(a0*x/r), the linear law x/g, selected on a0 == 0',
         'the three setting lists are normalised alike: None -> per-channel None, other length refused (ValueError)',
@@ -13,6 +15,7 @@ def run(cx):
         'channel list and setting lists are paired in the caller\'s order (no re-ordering/de-duplication before zip)',
         'all stores go to a fresh float copy, only at the loop channel; the copy is returned',
         '$PnE parsing: two comma separated floats, offset 0 of a log amplifier read as 1',
+        'the recorded gain is $PnG (CytekPnnG of FlowJo Collector\'s Edition files only when $PnG is absent), the resolution is int($PnR), each kept per channel in channel order',
     ]
     cx.not_decided += ['floating-point evaluation of the law (rounding)']
     cx.assumptions += ['_name_to_index is order preserving (C04)', 'ndarray.copy/astype return fresh arrays']
